@@ -186,7 +186,8 @@ extern "C" void dfcc_raw64()     { SimpleRandomT<8> g; g.raw64(); }
 extern "C" void dfcc_nonzero64() { SimpleRandomT<8> g; g.uint64(); }
 extern "C" void dfcc_raw32()     { SimpleRandomT<4> g; g.raw32(); }
 extern "C" void dfcc_nonzero32() { SimpleRandomT<4> g; g.uint32(); }
-extern "C" void dfcc_uniform()   { uniform(nd_u32()); uniform((uint64_t) nd_u64()); }
+extern "C" void dfcc_uniform32() { uniform(nd_u32()); }
+extern "C" void dfcc_uniform64() { uniform((uint64_t) nd_u64()); }
 // the pure spec equals the published reference iterated with zero-skipping (ties the contracts to the reference code)
 extern "C" void proof_spec_is_reference() {
   uint64_t s = nd_u64(), x = s; VASSERT(C20, spec_nz64_out(s) == spec_nonzero64(&x) && spec_nz64_state(s) == x, "contract spec (64) = reference splitmix64 with zeros skipped");
